@@ -37,6 +37,10 @@ pub enum Inject {
     Negative,
     Blank,
     Empty,
+    /// a complete, otherwise valid record behind leading white space (the chromosome column is then
+    /// " name" / empty: an unknown chromosome or a shifted line)
+    LeadingSpace,
+    LeadingTab,
 }
 
 #[derive(Serialize, Deserialize, Clone, Copy, Debug, PartialEq)]
@@ -206,7 +210,7 @@ fn build(case: &Case) -> Built {
             }
         }
         Inject::UnknownChrom | Inject::ChromOrder | Inject::Empty => {}
-        Inject::NonNumeric | Inject::MissingColumn | Inject::Negative | Inject::Blank => {
+        Inject::NonNumeric | Inject::MissingColumn | Inject::Negative | Inject::Blank | Inject::LeadingSpace | Inject::LeadingTab => {
             let (name, _, items) = &chroms[ck];
             let k = pick(case.item_sel, items.len());
             let it = &items[k];
@@ -226,6 +230,8 @@ fn build(case: &Case) -> Built {
                     }
                 }
                 Inject::Negative => format!("{}\t-{}\t{}\t{}", name, it.0 + 1, it.1, it.2),
+                Inject::LeadingSpace => format!(" {}\t{}\t{}\t{}", name, it.0, it.1, it.2),
+                Inject::LeadingTab => format!("\t{}\t{}\t{}\t{}", name, it.0, it.1, it.2),
                 _ => String::new(),
             };
             bad_line = Some((ck, k, line));
@@ -378,6 +384,8 @@ fn inject_for(bw: bool) -> BoxedStrategy<Inject> {
         Inject::Negative,
         Inject::Blank,
         Inject::Empty,
+        Inject::LeadingSpace,
+        Inject::LeadingTab,
     ];
     let mut v = common;
     if bw {
@@ -390,7 +398,7 @@ fn inject_for(bw: bool) -> BoxedStrategy<Inject> {
 }
 
 fn fix_opts(mut o: Opts, inject: Inject, text_pref: bool) -> Opts {
-    if matches!(inject, Inject::NonNumeric | Inject::MissingColumn | Inject::Negative | Inject::Blank)
+    if matches!(inject, Inject::NonNumeric | Inject::MissingColumn | Inject::Negative | Inject::Blank | Inject::LeadingSpace | Inject::LeadingTab)
         && !matches!(o.source, SourceKind::SerialText | SourceKind::ParallelText)
     {
         o.source = if text_pref { SourceKind::SerialText } else { SourceKind::ParallelText };
@@ -440,7 +448,7 @@ impl Prop for C13 {
     const TERMINATION: bool = true;
     fn rule() -> String {
         "a valid multi-chromosome input with ONE violation injected at a generated position: class in {bigWig out-of-order, overlap (also eight shapes of the offender after a value (0,4): zero-length at its start / inside it, nested, identical, longer, ending inside), start>end, end>size; bigBed start order, start>=size; \
-         unknown chromosome; chromosome order with sorted input required; malformed line (non-numeric, missing column, negative, blank); empty input} x {in front of the first, after the first, middle, last item} x {first, middle, last chromosome} \
+         unknown chromosome; chromosome order with sorted input required; malformed line (non-numeric, missing column, negative, blank, a valid record behind a leading space / tab); empty input} x {in front of the first, after the first, middle, last item} x {first, middle, last chromosome} \
          x {bigWig, bigBed} x {infallible iterator, fallible iterator, serial text, parallel text} x {single, two pass} (that grid once as fixed cases, plus generated bases/options); \
          oracle: the call returns Err (Ok is a violation), does not panic and returns within the deadline; valid degenerate inputs (only zero-length items, one item, items only at 0 / at the end, one chromosome all zero-length) must return, and if Ok the file must read back. \
          Text-source cases (all of the fixed grid, a quarter of the generated ones) also go through the real bedgraphtobigwig / bedtobigbed binaries with the matching flags (-t, --parallel, --single-pass, --uncompressed, --inmemory, --sorted, --block-size, --items-per-slot, --zooms/--nzooms): \
@@ -555,6 +563,7 @@ impl Prop for C13 {
                 let mut c = vec![
                     Inject::BwOutOfOrder, Inject::BwOverlap, Inject::StartGtEnd, Inject::BwEndGtSize, Inject::UnknownChrom,
                     Inject::ChromOrder, Inject::NonNumeric, Inject::MissingColumn, Inject::Negative, Inject::Blank, Inject::Empty,
+                    Inject::LeadingSpace, Inject::LeadingTab,
                 ];
                 c.extend((0..OVERLAP_SHAPES.len() as u8).map(Inject::BwOverlapShape));
                 c
@@ -562,6 +571,7 @@ impl Prop for C13 {
                 vec![
                     Inject::BbStartOrder, Inject::StartGtEnd, Inject::BbStartGeSize, Inject::UnknownChrom, Inject::ChromOrder,
                     Inject::NonNumeric, Inject::MissingColumn, Inject::Negative, Inject::Blank, Inject::Empty,
+                    Inject::LeadingSpace, Inject::LeadingTab,
                 ]
             };
             for inject in classes {
@@ -576,7 +586,7 @@ impl Prop for C13 {
                                 o.items_per_slot = 2;
                                 o.zoom = ZoomSpec::Manual(vec![16, 64]);
                                 let o = fix_opts(o, inject, src != SourceKind::Fallible);
-                                if matches!(inject, Inject::NonNumeric | Inject::MissingColumn | Inject::Negative | Inject::Blank)
+                                if matches!(inject, Inject::NonNumeric | Inject::MissingColumn | Inject::Negative | Inject::Blank | Inject::LeadingSpace | Inject::LeadingTab)
                                     && matches!(src, SourceKind::Infallible | SourceKind::Fallible)
                                 {
                                     continue; // text classes only exist for text sources
